@@ -74,6 +74,11 @@ TREE = {
     "modalias.py": "import legacy as backend\nimport modern as legacy_like\n",
     "relpkg/__init__.py": "from .inner import value as exported, other as value\n",
     "relpkg/inner.py": "def value(x):\n    return ('inner.value', x)\n\n\ndef other(x):\n    return ('inner.other', x)\n",
+    # __all__ in its other spellings, and a re-imported name that the module goes on to change
+    "alls.py": "y = ('alls', 1)\nw = ('alls', 2)\nz = ('alls', 3)\nv = ('alls', 4)\n__all__ = ('y',)\n__all__ += ['w']\n__all__.append('z')\n",
+    "fallback.py": "y = ('fallback', 1)\nw = ('fallback', 2)\nz = ('fallback', 3)\nv = ('fallback', 4)\n",
+    "counter_src.py": "count = 1\n",
+    "counter.py": "from counter_src import count\ncount += 1\n",
 }
 CLIENTS = {
     "star_two": "from legacy import *\nfrom modern import *\nprint(parse(1), load(2))\n",
@@ -98,6 +103,8 @@ CLIENTS = {
     "rename_chain": "from rename_chain import fetch, fetch_old\nprint(fetch(1), fetch_old(2))\n",
     "modalias": "from modalias import backend, legacy_like\nprint(backend.load(1), legacy_like.load(2))\n",
     "relpkg": "from relpkg import exported, value\nprint(exported(1), value(2))\n",
+    "all_spellings": "from fallback import *\nfrom alls import *\nprint(y, w, z, v)\n",
+    "augmented": "from counter import count\nprint(count)\n",
     "alias_of_alias": "from compat import load as ld\nfrom swap import parse as ps\nprint(ld(1), ps(2))\n",
     "toplevel_then_local": "import legacy\n\n\ndef f():\n    import legacy as lg\n    from legacy import load as ld\n    return lg.parse(1), ld(2), legacy.load(3)\n\n\nprint(f())\n",
 }
